@@ -547,21 +547,34 @@ Proof.
   rewrite H in E. discriminate.
 Qed.
 
-(* Shed load.  The marked classes of IsRequestLocalResolutionError are never
-   recorded; the resolver's two capacity sentinels are load shedding too but
-   are NOT in that list, so the handler's SERVFAIL for them is admitted to the
-   shared failure cache (finding shed-load-recorded). *)
+(* Shed load never becomes shared state: every load-shedding error class —
+   the resolver's capacity sentinels (since 950da92 they wrap
+   middleware.ErrResolutionCapacity, which IsRequestLocalResolutionError lists)
+   and the cache's probe limit — is marked request-local by the handler, so the
+   write-back of its SERVFAIL leaves the store untouched. *)
 Theorem marked_errors_not_recorded H c s k e now :
   is_request_local_error e = true -> serve_writeback H c s k (DFail (handler_failure e)) now = s.
 Proof. intro L. apply request_local_not_recorded. unfold handler_failure, request_local; cbn. now rewrite L. Qed.
 
-Theorem shed_load_recorded_witness :
-  exists e, shed_load e = true /\ cacheable_failure (handler_failure e) = true /\
-    forall H c k now, fst (fst (st_record_failure H c (mk_store [] false) k prov_response now)) <> mk_store [] false ->
-      serve_writeback H c (mk_store [] false) k (DFail (handler_failure e)) now <> mk_store [] false.
+Theorem shed_load_is_request_local e : shed_load e = true -> request_local (handler_failure e) = true.
+Proof. destruct e; cbn; intro E; try discriminate; reflexivity. Qed.
+
+Theorem shed_load_never_recorded H c s k e now :
+  shed_load e = true ->
+  serve_writeback H c s k (DFail (handler_failure e)) now = s /\ fst (serve H c s k (DFail (handler_failure e)) now) = s.
 Proof.
-  exists RCapacityGlobal. repeat split. intros H c k now N. cbn. exact N.
+  intro E. apply shed_load_is_request_local in E.
+  split; [now apply request_local_not_recorded | now apply request_local_serve_leaves_state].
 Qed.
+
+(* the unrepaired variant (before 950da92 the two capacity classes were not
+   listed): kept as an example of what the check reported *)
+Definition is_request_local_error_before_950da92 (e : rerr) : bool :=
+  match e with RCapacityGlobal | RCapacityZone => false | _ => is_request_local_error e end.
+Example shed_load_was_recorded_before_fix :
+  shed_load RCapacityGlobal = true /\
+  cacheable_failure (mk_req_local false false false (is_request_local_error_before_950da92 RCapacityGlobal)) = true.
+Proof. split; reflexivity. Qed.
 
 (* -------------------------------------------------------- the kill switch *)
 Section Disabled.
